@@ -92,6 +92,11 @@ func (rv recursiveValuer) Value(key string) (any, bool) {
 		return val, true
 	}
 
+	if vm == nil {
+		// 手工构造的字典文档中可能有 nil 字典：无法写入，另建一个承接外层条目。
+		vm = make(map[string]any, len(pm))
+	}
+
 	for k, v := range pm {
 		if _, ok := vm[k]; !ok {
 			vm[k] = v
